@@ -124,6 +124,13 @@ func verifPubSetup(cfg verifPubCfg) *verifPubWorld {
 		w.attached = append(w.attached, att)
 		w.chanSub = append(w.chanSub, att && pud.isChan)
 	}
+	// sessions that said {hi bkg=true} and were not promoted yet are attached like any other and get their copies
+	if verifNondetBool("allSessionsInBackground") {
+		w.pubSess.background = true
+		for _, s := range w.others {
+			s.background = true
+		}
+	}
 	w.noEcho = verifNondetBool("noEcho")
 	w.headKind = verifChoose("head", 3)
 	switch w.headKind {
@@ -573,5 +580,52 @@ func Harness_C01_server_generated_message_fault() {
 		verifAssert(datas == 2, "saved-message-reaches-both-parties")
 	}
 	verifAssert(stored >= t.lastID, "stored-high-water-mark-covers-every-number-shown")
+	verifReach("end")
+}
+
+// ---- C03: a topic is suspended (read-only: publishes are refused) exactly while the account it depends on is
+// suspended - p2p topics of the user and group topics the user owns; topics of others and the user's own
+// 'me'/'fnd' are not touched. Real Hub.topicsStateForUser followed by one publish through the real handler.
+func Harness_C03_suspended_account_topics() {
+	verifNewStore()
+	hub := verifInitGlobals()
+	uid, other := types.Uid(5), types.Uid(6)
+	mk := func(name string, cat types.TopicCat, owner types.Uid, members ...types.Uid) *Topic {
+		t := &Topic{name: name, xoriginal: name, cat: cat, owner: owner, perUser: map[types.Uid]perUserData{}, sessions: map[*Session]perSessionData{}}
+		for _, m := range members {
+			t.perUser[m] = perUserData{modeWant: types.ModeCFull, modeGiven: types.ModeCFull, topicName: name}
+		}
+		hub.topics.Store(name, t)
+		return t
+	}
+	p2p := mk(uid.P2PName(other), types.TopicCatP2P, 0, uid, other)
+	owned := mk("grpOWNEDBYUSER1", types.TopicCatGrp, uid, uid, other)
+	foreign := mk("grpOWNEDBYOTHER", types.TopicCatGrp, other, uid, other)
+	othersP2P := mk(other.P2PName(types.Uid(7)), types.TopicCatP2P, 0, other, types.Uid(7))
+	me := mk(uid.UserId(), types.TopicCatMe, 0, uid)
+	suspended := verifNondetBool("suspended")
+	if !suspended {
+		// coming back from a suspension
+		for _, t := range []*Topic{p2p, owned} {
+			t.markReadOnly(true)
+		}
+	}
+	hub.topicsStateForUser(uid, suspended)
+	verifAssert(p2p.isReadOnly() == suspended && owned.isReadOnly() == suspended, "users-p2p-and-owned-topics-follow-the-account-state")
+	verifAssert(!foreign.isReadOnly() && !othersP2P.isReadOnly() && !me.isReadOnly(), "other-topics-untouched")
+	// a member with write permission publishes to the group the suspended user owns
+	sess := verifNewSession("sid-o", other, auth.LevelAuth, 16)
+	owned.sessions[sess] = perSessionData{uid: other}
+	verifStore.topics[owned.name] = &types.Topic{ObjHeader: types.ObjHeader{Id: owned.name}}
+	pub := &ClientComMessage{Id: "p1", AsUser: other.UserId(), AuthLvl: int(auth.LevelAuth), Original: owned.name, RcptTo: owned.name,
+		Timestamp: types.TimeNow(), sess: sess, init: true, Pub: &MsgClientPub{Id: "p1", Topic: owned.name, Content: "x"}}
+	owned.handlePubBroadcast(pub)
+	accepted := false
+	for _, r := range verifDrainSend(sess) {
+		if r != nil && r.Ctrl != nil && r.Ctrl.Code == 202 {
+			accepted = true
+		}
+	}
+	verifAssert(accepted == !suspended, "publish-to-a-suspended-owners-group-refused")
 	verifReach("end")
 }
